@@ -8,7 +8,7 @@ SPEC = {
         'C01_traverse_range', 'C01_iterate_range', 'C01_root_identifies_tree', 'C01_save_monotone',
         'C01_load_save', 'C01_state_sorted', 'C01_state_last_write', 'C01_versioned_map',
         'C01_has', 'C01_get_index', 'C01_get_by_index', 'C01_remove_preserves_order', 'C01_tree_remove',
-        'C01_remove_preserves_avl',
+        'C01_remove_preserves_avl', 'C01_versioned_map_ops', 'C01_state_ops_sorted',
     ],
     'allowed_axioms': [],
     'shard': 8,
@@ -44,11 +44,11 @@ SPEC = {
         'EnableMVCC, EnableMavlPrune, EnableMemTree are out of scope here (C02, C05); EnableMavlPrefix is exercised '
         'on the implementation side against the same model (it only changes database keys)',
         'remove/DelKVPair is modelled, proved at tree level and exercised by the harness, but it is not on the block path '
-        '(Store.Del is a stub): the versioned-map theorem quantifies over write batches only',
+        '(Store.Del is a stub): C01_versioned_map is over write batches, C01_versioned_map_ops adds DelKVPair batches',
     ],
     'manifest': {
         'level_text': 'full for the sequential store: unbounded Coq theorems for set/get/range/save/load and the '
-                      'versioned-map theorem over all histories of write batches; remove is proved at tree level only',
+                      'versioned-map theorem over all histories of write batches (and, separately, of write + DelKVPair batches)',
         'level_note': 'symbolic (injective) hash; LevelDB and the node cache as oracles; shape observed through an add-only dump hook',
         'technique': 'Coq proof (structural induction on trees, invariant over batch histories, content-addressed '
                      'database refinement) + in-kernel correspondence check on generated histories',
